@@ -150,6 +150,12 @@ Proof.
   - intros ->. discriminate.
 Qed.
 
+Lemma unesc_name_plain b x : mem 92 x = false -> unesc_name b x = x.
+Proof.
+  revert b. induction x as [|c r IH]; intros b H; [reflexivity|]. cbn [mem] in H. apply orb_false_iff in H as [H1 H2].
+  cbn [unesc_name]. rewrite H1. now rewrite IH.
+Qed.
+
 Lemma pstep_ident acc n : hdP idsafe acc -> ident n = true ->
   pstep acc (mkS TIDENT n) = mkS TIDENT n :: acc.
 Proof.
@@ -715,10 +721,11 @@ Lemma ident_prefixed_step ns neg b c d w q p u n : ident p = true -> assoc_s p n
   Some (mkSt (after_simple neg) (octx neg) None b c (S d) w ((tsel neg, VPair (UStr u) n) :: q)).
 Proof.
   intros Hp Hu. destruct (ident_facts p Hp) as (A & B & C & D & E & F & G).
+  pose proof (unesc_name_plain true p (ident_noslash p (ident_namechars p Hp))) as Un.
   unfold mstep. change (handler_of _) with (Some H_ident). unfold h_ident.
   destruct neg; cbn [top_is ctx octx is_cx expd andb orb T_ident_0 T_ident_1 T_ident_2 T_ident_3 top_pseudo];
     unfold append; cbn [pfx]; cbn [ends_selector orb andb negb]; rewrite B; (destruct p as [|c0 r]; [congruence|]);
-    rewrite Hu; reflexivity.
+    rewrite Un, Hu; reflexivity.
 Qed.
 
 Lemma tname_ok ns neg e b c d w q qn n : hstartok neg e = true -> declared ns qn = true -> ident n = true ->
@@ -752,6 +759,7 @@ Proof.
   - destruct neg, e; try discriminate He; reflexivity.
   - destruct neg, e; try discriminate He; reflexivity.
   - simpl in Hd. apply andb_true_iff in Hd as [Hp Ha]. destruct (ident_facts p Hp) as (A & B & C & D & E & F & G).
+    pose proof (unesc_name_plain true p (ident_noslash p (ident_namechars p Hp))) as Un.
     destruct (assoc_s p ns) as [u|] eqn:Eu; [|discriminate].
     assert (M : mem 124 (nsval (NsP p) ++ s "*") = true).
     { cbn [nsval]. rewrite <- app_assoc, mem_app. simpl. apply orb_true_r. }
@@ -760,7 +768,7 @@ Proof.
     unfold g_univ. cbn [msteps]. unfold mstep. change (handler_of _) with (Some H_universal). unfold h_universal.
     destruct neg, e; try discriminate He; cbn [expd T_universal_0 top_is ctx octx is_cx];
       unfold append; cbn [pfx vstr sval]; rewrite M, Sp; cbn [ends_selector orb andb negb]; rewrite B;
-      (destruct p as [|c0 r]; [congruence|]); rewrite Eu; cbn [uri_of]; rewrite Eu; reflexivity.
+      (destruct p as [|c0 r]; [congruence|]); rewrite Un, Eu; cbn [uri_of]; rewrite Eu; reflexivity.
 Qed.
 
 (* ---- attribute selectors *)
@@ -773,6 +781,7 @@ Proof.
   - eexists; split; [reflexivity|split; [apply pres_push|reflexivity]].
   - eexists; split; [reflexivity|split; [apply pres_push|reflexivity]].
   - simpl in Hd. apply andb_true_iff in Hd as [Hp Ha]. destruct (ident_facts p Hp) as (A & B & C & D & E & F & G).
+    pose proof (unesc_name_plain true p (ident_noslash p (ident_namechars p Hp))) as Un.
     destruct (assoc_s p ns) as [u|] eqn:Eu; [|discriminate].
     exists ((I_attribute_selector, VPair (UStr u) n) :: q).
     split; [|split; [apply pres_push|cbn [it_attname uri_of]; rewrite Eu; reflexivity]].
@@ -784,7 +793,7 @@ Proof.
     rewrite S1. cbv beta iota.
     unfold mstep. change (handler_of _) with (Some H_ident). unfold h_ident.
     cbn [top_is ctx is_cx expd andb T_ident_0]. unfold append. cbn [pfx]. cbn [ends_selector orb andb negb].
-    rewrite B. destruct p as [|c0 r]; [congruence|]. rewrite Eu. reflexivity.
+    rewrite B. destruct p as [|c0 r]; [congruence|]. rewrite Un, Eu. reflexivity.
 Qed.
 
 Lemma nb_cons_true i q : nbi i = true -> nb (i :: q) = true.
